@@ -220,14 +220,14 @@ CLAIMED["C08"] = dict(
     "the indexed lengths (C08_key_lengths, from the band of the DP); the coordinates of every match reported by the look-up loop lie inside the read and are anchored, also for reads "
     "shorter than an indexed string (C08_coordinates); whenever all anchored affixes of an N-free read that the dictionary knows belong to one adapter and one of them has an indexed length "
     "that fits, a match is reported and it is a match of that adapter (C08_unique_reported: loop over descending lengths, sequential affix shrinking = direct slicing). the error count of every entry is its exact distance within the tolerance -- the edit distance for adapters with indels (C08_entry_exact: the banded DP of edit_environment "
-    "computes in every cell of the band the prefix distance capped at k+1; cells outside the band have distance > k), the Hamming distance otherwise. The statement of the property is "
+    "computes in every cell of the band the prefix distance capped at k+1; cells outside the band have distance > k), the Hamming distance otherwise; for reads with N the fallback reports a match of that adapter against the affix that covers the whole affix, with that match's own (by C01 exact) error count (C08_n_fallback_covers, after the repair of F8c). The statement of the property is "
     "thereby covered by theorems on the model except the clause about agreement with one-by-one search (which involves the aligner's own tie-breaking). Tie to the code and that clause rest on the correspondence (IndexedPrefix/SuffixAdapters.match_to, the index's string lengths and "
-    "dictionary content on probe strings vs the extracted model; 16k-200k cases) and on the textbook-distance oracle (soundness incl. coordinates and exact errors, unique occurrence, "
+    "dictionary content on probe strings vs the extracted model; 16k-200k cases) and on the textbook-distance oracle (soundness incl. coordinates and exact errors for all reads incl. reads with N, unique occurrence, "
     "agreement with one-by-one search and order independence for equal lengths without indels; also at the command line with and without --no-index). Genuine defects found and repaired: "
-    "F8a (9002ce0), F8b (db1eac7).",
+    "F8a (9002ce0), F8b (db1eac7), F8c (b1d2a97: N fallback removed more bases than were aligned).",
     technique="Coq proof (fold invariants over the adapter list; band argument on the model of edit_environment's DP; loop invariants for the affix look-up) + extracted-model differential correspondence with AdapterIndex; textbook-distance oracle on the implementation",
     design="6/C08",
-    note=TB + " 'Two nearest adapters' is read as nearest among the adapters that occur within their own tolerance. Reads with N go through the re-alignment fallback, which is modelled (match_to) but not covered by theorems.",
+    note=TB + " 'Two nearest adapters' is read as nearest among the adapters that occur within their own tolerance. Reads with N go through the re-alignment fallback, which is modelled (match_to); C08_n_fallback_covers + C01_errors_exact give the exactness of its error count, the look-up loop theorems (C08_unique_reported) are stated for N-free reads.",
 )
 
 NOT_YET = {}
